@@ -1089,6 +1089,7 @@ func ruleCmpShape(c *Ctx) {
 				}
 				n++
 				known := map[int]*bool{}
+				agree := false
 				for _, f := range dominatingFacts(r.Block()) {
 					for pi, pv := range pred {
 						if f.V == pv {
@@ -1096,6 +1097,17 @@ func ruleCmpShape(c *Ctx) {
 							known[pi] = &t
 						}
 					}
+					// the two predicates compared with each other: a == b known true, a != b known false
+					if bo, ok := f.V.(*ssa.BinOp); ok && (bo.Op == token.EQL || bo.Op == token.NEQ) {
+						if (bo.X == pred[0] && bo.Y == pred[1]) || (bo.X == pred[1] && bo.Y == pred[0]) {
+							if (bo.Op == token.EQL) == f.True {
+								agree = true
+							}
+						}
+					}
+				}
+				if agree {
+					continue
 				}
 				if known[0] == nil || known[1] == nil {
 					bad = "the return at " + b.posOf(r) + " can succeed without both root predicates having been decided: an object paired with an array is handed to one of the diff functions (or diffed some other way) instead of being rejected"
@@ -2322,6 +2334,17 @@ func (b *Body) mergeResultProvenance(l *Ledger, dm *ssa.Function, mf *mergeFns, 
 	// the two decoded containers: allocations whose UnmarshalJSON / decode is given a parameter
 	var allocs []*ssa.Alloc
 	errOf := map[*ssa.Alloc][]ssa.Value{}
+	fromIdx := map[*ssa.Alloc]int{}
+	// the prune family: the prune function of the merge and what it calls on containers
+	pruneFam := map[*ssa.Function]bool{}
+	if mf.pruneNulls != nil {
+		pruneFam[mf.pruneNulls] = true
+		for _, g := range b.libCalleesOf(mf.pruneNulls) {
+			if len(g.Params) > 0 && (isPtrToNamed(g.Params[0].Type(), "partialDoc") || isPtrToNamed(g.Params[0].Type(), "partialArray")) {
+				pruneFam[g] = true
+			}
+		}
+	}
 	allInstrs(dm, func(i ssa.Instruction) {
 		call, ok := i.(*ssa.Call)
 		if !ok || len(call.Call.Args) < 2 || len(errResultOf(call)) == 0 {
@@ -2350,7 +2373,16 @@ func (b *Body) mergeResultProvenance(l *Ledger, dm *ssa.Function, mf *mergeFns, 
 		}
 		allocs = append(allocs, al)
 		errOf[al] = errResultOf(call)
+		for _, a := range call.Call.Args {
+			if p, isP := a.(*ssa.Parameter); isP {
+				fromIdx[al] = paramIdx(p)
+			}
+		}
 	})
+	// the document is what is decoded from the first text parameter, whatever the order of the decodes
+	if len(allocs) == 2 && fromIdx[allocs[0]] > fromIdx[allocs[1]] {
+		allocs[0], allocs[1] = allocs[1], allocs[0]
+	}
 	if len(allocs) != 2 {
 		add(key, b.rel(dm.Pos()), false, "", fmt.Sprintf("expected two decoded object containers (document, patch), found %d", len(allocs)))
 		return
@@ -2423,7 +2455,7 @@ func (b *Body) mergeResultProvenance(l *Ledger, dm *ssa.Function, mf *mergeFns, 
 			default:
 				if c2, ok := leaf.(*ssa.Call); ok {
 					g := c2.Call.StaticCallee()
-					if g != nil && g.Pkg == b.Lib && len(c2.Call.Args) > 0 && c2.Call.Args[0] == ssa.Value(P) && strings.HasPrefix(b.roleNameOf(g), "prune") {
+					if g != nil && g.Pkg == b.Lib && len(c2.Call.Args) > 0 && c2.Call.Args[0] == ssa.Value(P) && pruneFam[g] {
 						if objBlk != nil && edgeDominates(objBlk, objSucc, from) {
 							bad = "the pruned patch is encoded as the result where both texts are objects"
 						}
